@@ -170,13 +170,18 @@ class Prop(BaseProp):
             ctx.count("auto_order")
             eq(ctx.call(ps.spike_train_order, a, b, MRTS="auto", max_tau=mt), ctx.call(ps.spike_train_order, a, b, MRTS=th_pair, max_tau=mt),
                "auto!=explicit:bi:spike_train_order", "spike_train_order(a,b) auto vs explicit")
+        # (every other case the 'auto' call also switches reconciliation off: the trains are valid, so that is a no-op
+        # by C13, and the threshold must still be resolved on the whole list)
+        rc = {"Reconcile": False} if ctx.evals % 2 else {}
+        if rc:
+            ctx.count("auto_with_reconcile_off")
         if N > 2:
             ctx.count("auto_multi")
             for name, extra in (("isi_profile", {}), ("isi_distance", {}), ("spike_profile", {"RI": RI}), ("spike_distance", {"RI": RI}),
                                 ("spike_sync_profile", {"max_tau": mt}), ("spike_sync", {"max_tau": mt}),
                                 ("spike_train_order_profile", {"max_tau": mt}), ("spike_directionality_values", {"max_tau": mt})):
                 fn = getattr(ps, name)
-                eq(ctx.call(fn, sts, MRTS="auto", **extra), ctx.call(fn, sts, MRTS=th_all, **extra), "auto!=explicit:multi:" + name,
+                eq(ctx.call(fn, sts, MRTS="auto", **extra, **rc), ctx.call(fn, sts, MRTS=th_all, **extra), "auto!=explicit:multi:" + name,
                    "%s(list,MRTS='auto') vs MRTS=default_thresh(list)=%r" % (name, th_all))
             if sum(len(s) for s in tr) > 0:
                 eq(ctx.call(ps.spike_train_order, sts, MRTS="auto", max_tau=mt), ctx.call(ps.spike_train_order, sts, MRTS=th_all, max_tau=mt),
@@ -185,10 +190,10 @@ class Prop(BaseProp):
         for name, extra in (("isi_distance_matrix", {}), ("spike_distance_matrix", {"RI": RI}), ("spike_sync_matrix", {"max_tau": mt}),
                             ("spike_directionality_matrix", {"max_tau": mt, "normalize": False})):
             fn = getattr(ps, name)
-            eq(ctx.call(fn, sts, MRTS="auto", **extra), ctx.call(fn, sts, MRTS=th_all, **extra), "auto!=explicit:matrix:" + name,
+            eq(ctx.call(fn, sts, MRTS="auto", **extra, **rc), ctx.call(fn, sts, MRTS=th_all, **extra), "auto!=explicit:matrix:" + name,
                "%s(list,MRTS='auto') vs MRTS=default_thresh(list)=%r" % (name, th_all))
         ctx.count("auto_filter")
-        eq(ctx.call(ps.filter_by_spike_sync, sts, case["thr"], MRTS="auto", max_tau=mt), ctx.call(ps.filter_by_spike_sync, sts, case["thr"], MRTS=th_all, max_tau=mt),
+        eq(ctx.call(ps.filter_by_spike_sync, sts, case["thr"], MRTS="auto", max_tau=mt, **rc), ctx.call(ps.filter_by_spike_sync, sts, case["thr"], MRTS=th_all, max_tau=mt),
            "auto!=explicit:filter_by_spike_sync", "filter auto vs explicit")
 
         # ---- 5. the threshold is the RMS of the pooled ISI lengths
